@@ -2,6 +2,7 @@ package checks
 
 import (
 	"context"
+	"math"
 	"fmt"
 	"math/rand/v2"
 	"sort"
@@ -53,6 +54,7 @@ func runC17(c *Case) {
 	serName := pick(r, []string{"none", "none", "json", "msgpack", "cbor"})
 	ending := pick(r, []string{"goodbye", "abort", "drop", "drop-midburst", "goodbye-midburst", "close", "close-noanswer", "close-pending"})
 	episodes := 2 + r.IntN(2)
+	features := chance(r, 75) // the router's WELCOME announces payload passthru etc.
 	var ser serialize.Serializer
 	switch serName {
 	case "json":
@@ -66,11 +68,12 @@ func runC17(c *Case) {
 	pendingHit := 0
 	var script []string
 	panicText := c.Bubble(func() {
-		w := newClientWorld(c, tmo, queue)
+		w := newClientWorldOpt(c, tmo, queue, features)
 		if w == nil {
 			return
 		}
 		var mu sync.Mutex
+		var maxReq uint64 // highest request id the client has used so far
 		entries, exits := 0, 0
 		ended := false // router said GOODBYE/ABORT or dropped
 		answerGoodbye := ending != "close-noanswer"
@@ -132,6 +135,9 @@ func runC17(c *Case) {
 				return nil
 			default:
 				return nil
+			}
+			if req > maxReq {
+				maxReq = req
 			}
 			if strings.HasPrefix(name, "pend.") {
 				pendReqs[name] = req
@@ -225,6 +231,21 @@ func runC17(c *Case) {
 			}
 			calls = nil
 		}
+		// clientAborted: the client said ABORT (its answer to a protocol violation such as payload passthru
+		// from a router that did not announce it) and shut down; that is a deliberate end of the session.
+		clientAborted := func() bool {
+			select {
+			case <-w.cli.Done():
+			default:
+				return false
+			}
+			for _, m := range w.rtr.All() {
+				if _, ok := m.Msg.(*wamp.Abort); ok {
+					return true
+				}
+			}
+			return false
+		}
 		endNow := func(how string) {
 			script = append(script, "END "+how)
 			switch how {
@@ -296,6 +317,20 @@ func runC17(c *Case) {
 			mu.Lock()
 			pendIDs = nil
 			mu.Unlock()
+			// requests the client gives up before sending them (invalid passthru options): their ids were
+			// allocated, and the router may well send replies carrying them
+			var abandoned []uint64
+			if chance(r, 40) {
+				mu.Lock()
+				next := maxReq + 1
+				mu.Unlock()
+				_, e1 := w.cli.Call(context.Background(), "ok.x", wamp.Dict{"ppt_scheme": "bogus"}, wamp.List{1}, nil, nil)
+				e2 := w.cli.Publish("ok.x", wamp.Dict{"acknowledge": true, "ppt_scheme": "bogus"}, wamp.List{1}, nil)
+				if e1 != nil && e2 != nil {
+					abandoned = []uint64{next, next + 1}
+					script = append(script, fmt.Sprintf("e%d client abandoned requests %d and %d (invalid ppt_scheme option)", ep, next, next+1))
+				}
+			}
 			tb := w.Now()
 			nPend := 3 + r.IntN(4)
 			for i := 0; i < nPend; i++ {
@@ -391,7 +426,7 @@ func runC17(c *Case) {
 					invID++
 					id := wamp.ID(invID)
 					liveInv = append(liveInv, invID)
-					switch pick(r, []string{"triple", "interrupt", "progressive", "timeout"}) {
+					switch pick(r, []string{"triple", "interrupt", "progressive", "timeout", "final-dups"}) {
 					case "triple":
 						for j := 0; j < 3; j++ {
 							plan = append(plan, item{at, &wamp.Invocation{Request: id, Registration: reg, Details: wamp.Dict{}, Arguments: wamp.List{mode}}, "INVOCATION{same id x3, " + mode + "}"})
@@ -410,10 +445,25 @@ func runC17(c *Case) {
 						} else {
 							plan = append(plan, item{at + time.Millisecond, &wamp.Interrupt{Request: id, Options: wamp.Dict{}}, "INTERRUPT{mid progressive}"})
 						}
+					case "final-dups":
+						// a progressive call: one chunk, the final invocation (whose handler runs on), then duplicates of the final one
+						plan = append(plan, item{at, &wamp.Invocation{Request: id, Registration: reg, Details: wamp.Dict{"progress": true}, Arguments: wamp.List{mode}}, "INVOCATION{progress chunk, " + mode + "}"})
+						for j := 0; j < 3; j++ {
+							plan = append(plan, item{at, &wamp.Invocation{Request: id, Registration: reg, Details: wamp.Dict{}, Arguments: wamp.List{mode}}, "INVOCATION{final after a chunk, sent x3, " + mode + "}"})
+						}
+						plan = append(plan, item{at + time.Millisecond, &wamp.Interrupt{Request: id, Options: wamp.Dict{}}, "INTERRUPT"})
 					case "timeout":
-						plan = append(plan, item{at, &wamp.Invocation{Request: id, Registration: reg, Details: wamp.Dict{"timeout": pick(r, []any{1, 50, int64(tmo / time.Millisecond), -1, "5", 1.5, uint64(1) << 63, true}), "receive_progress": true}, Arguments: wamp.List{mode}}, "INVOCATION{timeout detail, " + mode + "}"})
+						plan = append(plan, item{at, &wamp.Invocation{Request: id, Registration: reg, Details: wamp.Dict{"timeout": pick(r, []any{1, 50, int64(tmo / time.Millisecond), -1, "5", 1.5, uint64(1) << 63, true, int64(1) << 62, int64(math.MaxInt64), int64(1) << 53, int64(9223372036854)}), "receive_progress": true}, Arguments: wamp.List{mode}}, "INVOCATION{timeout detail, " + mode + "}"})
 					}
 				}
+			}
+			for _, id := range abandoned {
+				m := pick(r, []wamp.Message{
+					&wamp.Result{Request: wamp.ID(id), Details: wamp.Dict{}, Arguments: wamp.List{"x"}},
+					&wamp.Error{Type: wamp.CALL, Request: wamp.ID(id), Details: wamp.Dict{}, Error: "wamp.error.canceled"},
+					&wamp.Published{Request: wamp.ID(id), Publication: 1},
+				})
+				plan = append(plan, item{pick(r, offsets), m, fmt.Sprintf("%v{id of a request the client abandoned}", m.MessageType())})
 			}
 			sort.SliceStable(plan, func(i, j int) bool { return plan[i].at < plan[j].at })
 			cut := -1
@@ -428,6 +478,12 @@ func runC17(c *Case) {
 					endNow(strings.TrimSuffix(ending, "-midburst"))
 					break
 				}
+				if clientAborted() {
+					// the client ended the session itself over a protocol violation (it said ABORT): nothing more to send
+					script = append(script, "client sent ABORT")
+					ended = true
+					break
+				}
 				script = append(script, fmt.Sprintf("e%d +%v %s", ep, p.at, p.desc))
 				tuples[p.desc] = true
 				c.Tracef("router -> client: %s %v", p.desc, p.msg)
@@ -436,6 +492,10 @@ func runC17(c *Case) {
 				}
 			}
 			synctest.Wait()
+			if !ended && clientAborted() {
+				script = append(script, "client sent ABORT")
+				ended = true
+			}
 			// release handlers that wait for their context: a correct router interrupts or the call times out;
 			// here the router interrupts every invocation it started.
 			if !ended {
@@ -451,7 +511,7 @@ func runC17(c *Case) {
 				c.Fail("CH2", "client receive loop blocked: "+leakSig(st), "episode %d: 4 x timeout after the burst the client's receive goroutine is still blocked outside its select loop, so no further message is processed:\n%s", ep, st)
 				break episodes
 			}
-			if w.rtr.Stuck() {
+			if w.rtr.Stuck() && !clientAborted() {
 				c.Fail("CH2", "client stopped taking messages from the router", "episode %d: a message could not be handed to the client for a virtual hour\n%s", ep, w.rtr.StuckInfo())
 				break episodes
 			}
@@ -557,9 +617,9 @@ func runC17(c *Case) {
 	c.NT = len(tuples) >= 10 && pendingHit > 0
 	c.Add("hostile_messages", float64(len(script)))
 	c.SetMax("distinct_message_shapes_in_a_case", float64(len(tuples)))
-	c.Key = fmt.Sprintf("tmo=%v q=%d ser=%s end=%s|%s", tmo, queue, serName, ending, strings.Join(script, "\n"))
+	c.Key = fmt.Sprintf("tmo=%v q=%d ser=%s end=%s feat=%v|%s", tmo, queue, serName, ending, features, strings.Join(script, "\n"))
 	if c.Index < 3 || len(c.Viol) > 0 {
-		c.Sample = map[string]any{"response_timeout": tmo.String(), "queue": queue, "serializer": serName, "ending": ending, "script": clip(script, 60)}
+		c.Sample = map[string]any{"response_timeout": tmo.String(), "queue": queue, "serializer": serName, "ending": ending, "router_announces_features": features, "script": clip(script, 60)}
 	}
 }
 
